@@ -489,6 +489,61 @@ def find_free_helper(unit, name, repo=None):
     return None
 
 
+def find_pure_helper(unit, name, repo=None):
+    """A helper `fn name(..) -> T { <single expression> }` (no statements: the body IS its specification) in one of the source
+    files the unit draws from, or in eviction_policy.rs / cache_entry.rs: returned as an item whose contract is `r == <body>`,
+    i.e. exact -- callers verify iff the helper computes what they need. A clock read (rule R5) gets `r == spec_clock_secs()`."""
+    repo = repo or REPO
+    files = []
+    for it in unit['items']:
+        f = it.get('file')
+        if it.get('kind') in ('fn', 'struct', 'enum') and f and f.endswith('.rs') and f not in files:
+            files.append(f)
+    for f in ('cachelito-core/src/eviction_policy.rs', 'cachelito-core/src/cache_entry.rs'):
+        if f not in files:
+            files.append(f)
+    from . import rules as RL
+    for f in files:
+        try:
+            stripped = rustsrc.strip_comments(open(os.path.join(repo, f)).read())
+        except OSError:
+            continue
+        for m in re.finditer(r'\bfn\s+%s\s*(?:<[^>]*>)?\s*\(' % re.escape(name), stripped):
+            try:
+                fn = rustsrc.find_fn(stripped, name, m.start() - 40 if m.start() > 40 else 0, len(stripped))
+            except ExtractError:
+                continue
+            sig = stripped[fn['sig_start']:fn['body_open']]
+            body = stripped[fn['body_open'] + 1:fn['body_close']].strip()
+            if '->' not in sig or ';' in body or re.search(r'\blet\b|\breturn\b|\bloop\b|\bwhile\b|\bfor\b', body) or not body:
+                continue
+            if re.search(r'&\s*mut\s+self', sig):
+                continue
+            log = []
+            expr = _apply_rules(body, list(RL.R5), log, 0, name)
+            expr1 = ' '.join(expr.split())
+            if expr1 == 'clock_now_secs()':
+                spec = 'spec_clock_secs()'
+            elif re.search(r'\b(clock_now_secs|rand_below)\s*\(', expr1):
+                continue
+            else:
+                spec = expr1
+            impl = None
+            for im in re.finditer(r'(?m)^impl\b[^{;]*\{', stripped):
+                ob = im.end() - 1
+                if ob < fn['sig_start'] <= rustsrc.match_close(stripped, ob):
+                    impl = '^' + re.escape(re.sub(r'\s+', ' ', im.group(0)[:-1]).strip()) + '$'
+            d = dict(kind='fn', file=f, name=name, label='helper::%s' % name, rules=list(RL.R5), ret='r', auto_helper=True,
+                     ensures=[('is_its_body', [], 'r == (%s)' % spec)])
+            if impl:
+                d['impl'] = impl
+                donor = next((x for x in unit['items'] if x.get('kind') == 'fn' and x.get('file') == f and x.get('impl_rules')), None)
+                if donor:
+                    d['impl_rules'] = donor['impl_rules']
+            return d
+    return None
+
+
 def generate(unit_name, repo=None, force_stub=(), workdir=None, extra_helpers=()):
     repo = repo or REPO
     unit = load_unit(unit_name)
